@@ -10,6 +10,7 @@
 From Coq Require Import List NArith Bool Sorting.Sorted.
 Import ListNotations.
 From ZV.Conc Require Import Sched MtModel MtProofs MtRing MtRingC MtRingT MtPool MtFrame MtSleep MtStep MtLive.
+From ZV.Conc Require Import MtErr MtErrC MtFlush MtFlushC MtGeo MtGeoC MtGeoW.
 Local Open Scope N_scope.
 
 (* mt_serial_order (1): serial sections (LDM sequence generation + checksum update) are executed in strictly increasing
@@ -174,3 +175,164 @@ Theorem mt_deadlock_free : forall cfg ops sched,
   0 < c_chunk cfg -> ops_ok ops -> noldm_ops ops -> stuck cfg (run state (step cfg) sched (init cfg ops)) = false.
 Proof. exact deadlock_free. Qed.
 Print Assumptions mt_deadlock_free.
+
+(* mt_deadlock_free, every program (LDM included), every payload oracle: the ONLY place where the whole system can halt is the caller's
+   wait on ldmWindowCond (ZSTDMT_waitForLdmComplete): in every other reachable state some thread can take a step *)
+Theorem mt_deadlock_free_outside_ldm_wait : forall cfg ops sched,
+  0 < c_chunk cfg -> ops_ok ops -> let s := run state (step cfg) sched (init cfg ops) in
+  c_pc (cl s) <> CLdm1Z -> c_pc (cl s) <> CLdm2Z -> stuck cfg s = false.
+Proof. exact no_deadlock_outside_ldm_wait. Qed.
+Print Assumptions mt_deadlock_free_outside_ldm_wait.
+
+(* ---- in-order flush ---- *)
+
+(* mt_flush_in_order: the flush log g_out (frame, job id, offset in the job's output, length: one entry per copy into the caller's buffer)
+   is a chain - an entry continues its job exactly where the previous one stopped, or starts the NEXT job of the frame at offset 0 after the
+   previous job was finished (listed in g_fin) with exactly the bytes flushed so far, or starts job 0 of a later frame; every length is
+   positive; g_fin lists each finished job once, ids consecutive from 0 inside a frame, with total = the sum of its entries; while a frame is
+   open the log ends at dstFlushed of the job at doneJobID, every job below doneJobID is finished, no job above it has an entry *)
+Theorem mt_flush_in_order : forall cfg ops sched, 0 < c_chunk cfg -> ops_ok ops ->
+  let s := run state (step cfg) sched (init cfg ops) in FlushOrd cfg s.
+Proof. exact flush_in_order. Qed.
+Print Assumptions mt_flush_in_order.
+
+(* every entry of the flush log is a copy made by the application thread out of the error-free job at doneJobID *)
+Theorem mt_flush_only_done_job : forall cfg ops sched t w s',
+  0 < c_chunk cfg -> ops_ok ops -> let s := run state (step cfg) sched (init cfg ops) in
+  step cfg t w s = Some s' ->
+  g_out (gh s') = g_out (gh s) \/
+  exists off len, t = 0%nat /\ g_out (gh s') = g_out (gh s) ++ [(fr (mt s), done (mt s), off, len)] /\
+                  done (mt s) < next (mt s) /\ j_err (getj s (slot cfg (done (mt s)))) = false.
+Proof. exact flush_only_done_job. Qed.
+Print Assumptions mt_flush_only_done_job.
+
+(* ---- mt_error_propagates ---- *)
+
+(* a failed job stays in flight, failed and unflushed, and no flush-log entry is made for it, unless the step is one of the application
+   thread inside ZSTDMT_waitForAllJobsCompleted / ZSTDMT_releaseAllJobResources *)
+Theorem mt_error_sticky : forall cfg ops sched t w s' i,
+  0 < c_chunk cfg -> ops_ok ops -> let s := run state (step cfg) sched (init cfg ops) in
+  step cfg t w s = Some s' -> inflight s i -> j_err (getj s (slot cfg i)) = true ->
+  (t = 0%nat /\ relphase (c_pc (cl s)) = true) \/
+  (inflight s' i /\ j_err (getj s' (slot cfg i)) = true /\
+   j_flushed (getj s' (slot cfg i)) = j_flushed (getj s (slot cfg i)) /\
+   exists l, g_out (gh s') = g_out (gh s) ++ l /\ forall e, In e l -> out_id e <> i).
+Proof. exact err_sticky. Qed.
+Print Assumptions mt_error_sticky.
+
+(* once the job at doneJobID has failed, no step of any thread hands output to the application *)
+Theorem mt_error_blocks_output : forall cfg ops sched t w s',
+  0 < c_chunk cfg -> ops_ok ops -> let s := run state (step cfg) sched (init cfg ops) in
+  step cfg t w s = Some s' -> j_err (getj s (slot cfg (done (mt s)))) = true -> g_out (gh s') = g_out (gh s).
+Proof. exact err_blocks_output. Qed.
+Print Assumptions mt_error_blocks_output.
+
+(* ZSTDMT_flushProduced seeing the error flag of the job at doneJobID moves the caller to ZSTDMT_waitForAllJobsCompleted (error path) and
+   changes nothing else *)
+Theorem mt_error_noticed : forall cfg ops sched w s',
+  0 < c_chunk cfg -> ops_ok ops -> let s := run state (step cfg) sched (init cfg ops) in
+  c_pc (cl s) = CFlush -> j_err (getj s (slot cfg (done (mt s)))) = true -> caller_step cfg w s = Some s' ->
+  done (mt s) < next (mt s) /\ s' = set_cpc (CWait false) s /\
+  c_pc (cl s') = CWait false /\ c_res (cl s') = c_res (cl s) /\ gh s' = gh s /\ mt s' = mt s /\ jobs s' = jobs s.
+Proof. exact err_noticed. Qed.
+Print Assumptions mt_error_noticed.
+
+(* a step on the error path stays on it (the release index strictly increases, bounded by the table length) with no result recorded and
+   nothing flushed, or ZSTD_compressStream2 returns an error; at that moment everything is released: no job in flight, the job table all
+   zero (no output buffer held), allJobsCompleted set, the input buffer dropped, the pool queue empty, no pool thread inside a job *)
+Theorem mt_error_path_reports : forall cfg ops sched w s',
+  0 < c_chunk cfg -> ops_ok ops -> let s := run state (step cfg) sched (init cfg ops) in
+  (c_pc (cl s) = CWait false \/ exists k, c_pc (cl s) = CRelAll false k) -> caller_step cfg w s = Some s' ->
+  ((c_pc (cl s') = CWait false \/ c_pc (cl s') = CWaitZ false \/
+    exists k', c_pc (cl s') = CRelAll false k' /\ (k' < length (jobs s))%nat /\ forall k, c_pc (cl s) = CRelAll false k -> (k < k')%nat) /\
+   c_res (cl s') = c_res (cl s) /\ gh s' = gh s) \/
+  (exists s1, Released s1 /\ c_res (cl s1) = c_res (cl s) /\ gh s1 = gh s /\ s' = finish_op cfg s1 RErr /\
+              exists l, c_res (cl s') = c_res (cl s) ++ RErr :: l).
+Proof. exact err_path_reports. Qed.
+Print Assumptions mt_error_path_reports.
+
+(* run level: once the caller is on the error path, under every continuation of the schedule either it is still waiting / releasing, no call
+   has returned and no byte has been handed out since, or the first call result since is an error *)
+Theorem mt_error_propagates : forall cfg ops sched1 sched2,
+  0 < c_chunk cfg -> ops_ok ops ->
+  let s := run state (step cfg) sched1 (init cfg ops) in
+  let s2 := run state (step cfg) (sched1 ++ sched2) (init cfg ops) in
+  on_err_path (c_pc (cl s)) = true ->
+  (on_err_path (c_pc (cl s2)) = true /\ c_res (cl s2) = c_res (cl s) /\ g_out (gh s2) = g_out (gh s)) \/
+  exists l, c_res (cl s2) = c_res (cl s) ++ RErr :: l.
+Proof. exact MtErrC.mt_error_propagates. Qed.
+Print Assumptions mt_error_propagates.
+
+(* the serial state skips a failed job: JOB_ERROR marks the job and leads to ZSTDMT_serialState_ensureFinished, which is always enabled and
+   leaves serial.nextJobID above the job without logging a serial section for it; a pool thread past ensureFinished and every job that has
+   reported are behind serial.nextJobID (except the last empty block written by the caller) *)
+Theorem mt_error_serial_skips : forall cfg ops sched,
+  0 < c_chunk cfg -> ops_ok ops -> let s := run state (step cfg) sched (init cfg ops) in
+  (forall t w c s', nth_error (ws s) t = Some w -> w_pc w = WJobErr -> step cfg (S t) c s = Some s' ->
+     j_err (getj s' (w_slot w)) = true /\
+     exists w', nth_error (ws s') t = Some w' /\ w_pc w' = WEnsure /\ w_slot w' = w_slot w) /\
+  (forall t w, nth_error (ws s) t = Some w -> w_pc w = WEnsure ->
+     exists i, inflight s i /\ w_slot w = slot cfg i /\
+       forall c, exists s', step cfg (S t) c s = Some s' /\ i < s_next (sr s') /\ s_log (sr s') = s_log (sr s) /\
+                            (s_next (sr s) <= i -> s_skip (sr s') = true)) /\
+  (forall t w, nth_error (ws s) t = Some w -> postens (w_pc w) = true ->
+     exists i, inflight s i /\ w_slot w = slot cfg i /\ i < s_next (sr s)) /\
+  (forall i, inflight s i -> j_done (getj s (slot cfg i)) = true -> i < s_next (sr s) \/ (i + 1 = next (mt s) /\ sealed s)).
+Proof. exact err_serial_skips. Qed.
+Print Assumptions mt_error_serial_skips.
+
+(* ZSTDMT_waitForAllJobsCompleted / ZSTDMT_releaseAllJobResources can always make progress (after an error, or entered from init): no
+   deadlock in the wait-and-release phase, LDM included; a sleeping caller waits for a job held by a thread that can run *)
+Theorem mt_release_no_deadlock : forall cfg ops sched,
+  0 < c_chunk cfg -> ops_ok ops -> let s := run state (step cfg) sched (init cfg ops) in
+  relphase (c_pc (cl s)) = true -> stuck cfg s = false.
+Proof. exact release_no_deadlock. Qed.
+Print Assumptions mt_release_no_deadlock.
+
+Theorem mt_release_wait_has_runner : forall cfg ops sched,
+  0 < c_chunk cfg -> ops_ok ops -> let s := run state (step cfg) sched (init cfg ops) in
+  forall i, c_pc (cl s) = CWaitZ i ->
+  exists t w, nth_error (ws s) t = Some w /\ step cfg (S t) 0 s <> None /\
+              (w_pc w = WIdle /\ q (pl s) = Some (slot cfg (done (mt s))) \/
+               active (w_pc w) = true /\ w_slot w = slot cfg (done (mt s))).
+Proof. exact err_wait_has_runner. Qed.
+Print Assumptions mt_release_wait_has_runner.
+
+(* ---- mt_input_ranges_safe (hypothesis geo_ops: targetPrefixSize <= targetSectionSize, as ZSTDMT_initCStream_internal makes it) ---- *)
+
+(* the geometry invariant of the round buffer (MtGeo.GInv) holds in every reachable state *)
+Theorem mt_buffer_geometry_invariant : forall cfg ops sched,
+  0 < c_chunk cfg -> ops_ok ops -> geo_ops ops ->
+  let s := run state (step cfg) sched (init cfg ops) in TInv cfg s /\ GInv cfg s.
+Proof. exact ginv_reachable. Qed.
+Print Assumptions mt_buffer_geometry_invariant.
+
+(* whenever the application thread holds an input buffer [inBuff.start, + targetSectionSize) the buffer lies inside the round buffer and
+   overlaps neither the source nor the prefix of any job in flight that its worker has not consumed completely *)
+Theorem mt_input_ranges_safe : forall cfg ops sched,
+  0 < c_chunk cfg -> ops_ok ops -> geo_ops ops ->
+  let s := run state (step cfg) sched (init cfg ops) in
+  alldone (mt s) = false -> relphase (awake (c_pc (cl s))) = false -> ihas (mt s) = true ->
+  istart (mt s) + target (mt s) <= rcap (mt s) /\ ifill (mt s) <= target (mt s) /\
+  forall i, inflight s i -> j_consumed (getj s (slot cfg i)) < j_size (getj s (slot cfg i)) ->
+    j_src (getj s (slot cfg i)) + j_size (getj s (slot cfg i)) <= rcap (mt s) /\
+    overlap (istart (mt s), target (mt s)) (j_src (getj s (slot cfg i)), j_size (getj s (slot cfg i))) = false /\
+    overlap (istart (mt s), target (mt s)) (j_pstart (getj s (slot cfg i)), j_psize (getj s (slot cfg i))) = false.
+Proof. exact input_ranges_safe. Qed.
+Print Assumptions mt_input_ranges_safe.
+
+(* the prefix move at the wrap and everything else written in the current lap of the round buffer: an unfinished job in flight from an
+   EARLIER lap is exactly one lap old and lies (prefix included) at or above roundBuff.pos, so nothing in [0, roundBuff.pos) - in
+   particular the moved prefix [0, prefix.size) - overlaps it; an unfinished job of the current lap ends at or below roundBuff.pos *)
+Theorem mt_prefix_move_safe : forall cfg ops sched,
+  0 < c_chunk cfg -> ops_ok ops -> geo_ops ops ->
+  let s := run state (step cfg) sched (init cfg ops) in
+  alldone (mt s) = false -> relphase (awake (c_pc (cl s))) = false ->
+  (0 < psize (mt s) -> pstart (mt s) + psize (mt s) = rpos (mt s)) /\
+  forall i, inflight s i -> j_consumed (getj s (slot cfg i)) < j_size (getj s (slot cfg i)) ->
+    let j := getj s (slot cfg i) in
+    (j_lap j = lap (mt s) /\ j_src j + j_size j <= rpos (mt s)) \/
+    (j_lap j + 1 = lap (mt s) /\ rpos (mt s) + j_psize j <= j_src j /\ (0 < j_psize j -> j_pstart j + j_psize j = j_src j) /\
+     forall a n, a + n <= rpos (mt s) -> overlap (a, n) (j_src j, j_size j) = false /\ overlap (a, n) (j_pstart j, j_psize j) = false).
+Proof. exact older_laps_above_frontier. Qed.
+Print Assumptions mt_prefix_move_safe.
